@@ -60,6 +60,11 @@ class SandboxCoverageTracer(SandboxBasicTracer):
         self.lines = set()
 
     def __enter__(self):
+        # Importing a student file re-enters this tracer while it is already
+        # measuring; coverage cannot be nested, the outer measurement goes on.
+        self._depth = getattr(self, '_depth', 0) + 1
+        if self._depth > 1:
+            return
         # Force coverage to accept the code
         self.original = coverage.python.get_python_source
 
@@ -76,6 +81,9 @@ class SandboxCoverageTracer(SandboxBasicTracer):
         self.coverage.start()
 
     def __exit__(self, exc_type, exc_val, traceback):
+        self._depth -= 1
+        if self._depth:
+            return
         self.coverage.stop()
         self.coverage.save()
         # Restore the get_python_source reader
@@ -117,14 +125,17 @@ class SandboxNativeTracer(SandboxBasicTracer):
         self.call_stack = []
         self.lines = []
         self.old_tracer = None
+        self._old_tracers = []
         self.step_index = 1
 
     def __enter__(self):
-        self.old_tracer = sys.gettrace()
+        # A stack, because importing a student file re-enters the same tracer
+        self._old_tracers.append(sys.gettrace())
+        self.old_tracer = self._old_tracers[-1]
         sys.settrace(self.tracer)
 
     def __exit__(self, exc_type, exc_val, traceback):
-        sys.settrace(self.old_tracer)
+        sys.settrace(self._old_tracers.pop())
 
     def is_tracked_file(self, frame):
         left = os.path.basename(frame.f_code.co_filename)
@@ -180,11 +191,14 @@ class SandboxCallTracer(SandboxBasicTracer, Bdb):
 
     def __enter__(self):
         self.reset()
-        self._old_trace = sys.gettrace()
+        # A stack, because importing a student file re-enters the same tracer
+        if not hasattr(self, '_old_traces'):
+            self._old_traces = []
+        self._old_traces.append(sys.gettrace())
         sys.settrace(self.trace_dispatch)
 
     def __exit__(self, exc_type, exc_val, traceback):
-        sys.settrace(self._old_trace)
+        sys.settrace(self._old_traces.pop())
         self.quitting = True
         # Return true to suppress exception (if it is a BdbQuit)
         return isinstance(exc_type, BdbQuit)
